@@ -292,7 +292,7 @@ func (fc *FnCtx) unknownCall(ins ssa.Instruction, name string, sig *types.Signat
 			fmt.Fprintf(os.Stderr, "unknownCall %s invoke=%v keep=%d type=%T\n", name, cc != nil && cc.IsInvoke(), len(keep), func() any { if cc != nil { return cc.Value.Type() }; return nil }())
 		}
 		before := fc.cur.clone()
-		g.havocAll(fc.cur, name)
+		g.havocAllExcept(fc.cur, name, fc.privateSkip(ins))
 		for k, v := range keep {
 			fc.cur.m[k] = v
 		}
@@ -387,6 +387,15 @@ func (e *Env) resolveModifies(entries []string) (targets []modTarget, all bool) 
 				} else if strings.HasPrefix(x, "cells(") && strings.HasSuffix(x, ")") {
 					T, _ := e.resolveType(x[6 : len(x)-1])
 					targets = append(targets, modTarget{key: g.cellKey(T), whole: true})
+				} else if strings.HasPrefix(x, "umaps(") && strings.HasSuffix(x, ")") {
+					kv := strings.Split(x[6:len(x)-1], ";")
+					if len(kv) != 2 {
+						cxFail("modifies * except %s (use umaps(K;V))", x)
+					}
+					K, _ := e.resolveType(strings.TrimSpace(kv[0]))
+					V, _ := e.resolveType(strings.TrimSpace(kv[1]))
+					kd, kvk := g.umapKeys(K, V)
+					targets = append(targets, modTarget{key: kd, whole: true}, modTarget{key: kvk, whole: true})
 				} else if strings.HasSuffix(x, ".*") {
 					T, _ := e.resolveType(strings.TrimSuffix(x, ".*"))
 					st, ok := T.Underlying().(*types.Struct)
@@ -526,6 +535,26 @@ func (e *Env) resolveModifies(entries []string) (targets []modTarget, all bool) 
 					if !ok {
 						cxFail("modifies %s: not a struct type", m)
 					}
+					found := false
+					for i := 0; i < st.NumFields(); i++ {
+						if st.Field(i).Name() == n.Name || n.Name == "*" {
+							targets = append(targets, modTarget{key: g.fieldKey(T, i), whole: true})
+							found = true
+						}
+					}
+					if !found {
+						cxFail("modifies %s: no such field", m)
+					}
+					continue
+				}
+			}
+		}
+		if q := n.Args[0]; q.Kind == "field" && q.Args[0].Kind == "ident" {
+			// pkg.Type.f (whole array)
+			_, isVar := e.vars[q.Args[0].Name]
+			_, isB := e.bound[q.Args[0].Name]
+			if T := e.tryResolveType(q.Args[0].Name + "." + q.Name); !isVar && !isB && T != nil {
+				if st, ok := T.Underlying().(*types.Struct); ok {
 					found := false
 					for i := 0; i < st.NumFields(); i++ {
 						if st.Field(i).Name() == n.Name || n.Name == "*" {
@@ -856,8 +885,7 @@ func (fc *FnCtx) builtin(ins ssa.Instruction, b *ssa.Builtin, cc *ssa.CallCommon
 			fc.defVal(res, fmt.Sprintf("(str.len %s)", v.t))
 		case *types.Map:
 			kd, _ := g.mapKeys(u)
-			fn := "|card!" + sanitize(g.sortOf(u.Key())) + "|"
-			g.declareFun(fn, "((Array "+g.sortOf(u.Key())+" Bool)) Int")
+			fn := g.cardFn(g.sortOf(u.Key()))
 			fc.defVal(res, fmt.Sprintf("(ite (= %s 0) 0 (%s (select %s %s)))", v.t, fn, g.get(fc.cur, kd), v.t))
 			fc.assume(fmt.Sprintf("(<= 0 %s)", fc.vals[res].t), "len >= 0")
 		case *types.Array:
@@ -952,14 +980,14 @@ func (fc *FnCtx) appendBuiltin(ins ssa.Instruction, cc *ssa.CallCommon, res ssa.
 	if n, ok := constSliceLen(cc.Args[1]); ok {
 		newArr = srcArr
 		for i := 0; i < n; i++ {
-			elt := fmt.Sprintf("(select (select %s (sarr %s)) (+ (soff %s) %d))", h, t.t, t.t, i)
-			newArr = fmt.Sprintf("(store %s (+ (soff %s) (slen %s) %d) %s)", newArr, s.t, s.t, i, elt)
+			elt := fmt.Sprintf("(select (select %s (sarr %s)) (|ix| (soff %s) %d))", h, t.t, t.t, i)
+			newArr = fmt.Sprintf("(store %s (|ix| (soff %s) (+ (slen %s) %d)) %s)", newArr, s.t, s.t, i, elt)
 		}
 	} else {
 		na := g.fresh(fc.prefix+"app.newarr", "(Array Int "+es+")")
 		// forall i: i < off+len(s) => na[i] = src[i] ; len(s) <= j < total => na[off+j] = t[j-len(s)]
 		fc.assume(fmt.Sprintf("(forall ((|i| Int)) (! (=> (and (<= 0 |i|) (< |i| (+ (soff %s) (slen %s)))) (= (select %s |i|) (select %s |i|))) :pattern ((select %s |i|))))", s.t, s.t, na, srcArr, na), "append keeps prefix")
-		fc.assume(fmt.Sprintf("(forall ((|j| Int)) (! (=> (and (<= 0 |j|) (< |j| (slen %s))) (= (select %s (+ (soff %s) (slen %s) |j|)) (select (select %s (sarr %s)) (+ (soff %s) |j|)))) :pattern ((select (select %s (sarr %s)) (+ (soff %s) |j|)))))", t.t, na, s.t, s.t, h, t.t, t.t, h, t.t, t.t), "append copies suffix")
+		fc.assume(fmt.Sprintf("(forall ((|j| Int)) (! (=> (and (<= 0 |j|) (< |j| (slen %s))) (= (select %s (|ix| (soff %s) (+ (slen %s) |j|))) (select (select %s (sarr %s)) (|ix| (soff %s) |j|)))) :pattern ((select (select %s (sarr %s)) (|ix| (soff %s) |j|)))))", t.t, na, s.t, s.t, h, t.t, t.t, h, t.t, t.t), "append copies suffix")
 		newArr = na
 	}
 	g.set(fc.cur, k, fmt.Sprintf("(store %s %s %s)", h, arrRef, newArr))
